@@ -37,6 +37,8 @@ def run(ctx):
     c12.judge_decoding(ctx, cases, results, st, "real")
     c12.judge_vectors(ctx, recs, verdicts, st, "C02")
     c12.judge_big(ctx, st, "C02")
+    c12.judge_later_decodes(ctx, cases, results, ctx.extra["laters"], st)
+    c12.judge_concurrent_decodes(ctx, cases, results, st, ("real", "spec"))
     ctx.log("stats: %s" % dict(st))
     # distinct non-trivial: a documented source whose real encoding was decoded into at least one
     # documented target and compared with the specification's expected value
@@ -58,6 +60,9 @@ def run(ctx):
         cases=len(cases), cases_unclaimed=st["unclaimed"], marshal_ok=st["marshal_ok"], marshal_refused=st["marshal_refused"],
         round_trips_equal=st["rt_equal"], decode_errors_allowed=st["rt_err_allowed"],
         round_trips_into_prefilled_or_reused_destination_identical_to_fresh=st["rt_same_as_fresh"],
+        marshal_outputs_held_and_reread=ctx.extra["summ"].get("held", 0), outputs_changed_later=ctx.extra["summ"].get("changed_later", 0),
+        later_round_trips=st["later_round_trips"], concurrent_decodes=ctx.extra["summ"].get("concurrent_decodes", 0),
+        concurrent_decodes_differing=ctx.extra["summ"].get("concurrent_decodes_differing", 0),
         size_limit_cases=st["big_cases"], size_limit_round_trips_equal=st["big_rt_equal"], size_limit_refused=st["big_refused"],
         random_vectors=len(verdicts), random_vectors_claimed=st["vec_claimed"], random_vector_round_trips=st["vec_decodes"],
         samples=[dict(c12.sample_of(c, results[c["id"]]),
